@@ -54,15 +54,15 @@ fn c06_case(b: usize, l: usize, depth: u8, stop_at: u32) {
     let mut s = Searcher::new();
     let root = Board::root();
     let rep0 = crate::search::vh::rep_len(&s);
-    unsafe { STOP_AT = stop_at; }
+    unsafe { CLK.stop_at = stop_at; }
     let _ = s.find_best_move(&root, depth, Some(Duration::from_millis(1)));
-    let stopped = unsafe { STOPPED };
-    let polls = unsafe { POLLS };
+    let stopped = unsafe { CLK.stopped };
+    let polls = unsafe { CLK.polls };
     // C07: once the clock said stop, no further node is entered; between two polls at most two nodes
-    vassert!(unsafe { NODES_AFTER_STOP } == 0, "C07: search entered further nodes after the deadline had been observed");
-    vassert!(unsafe { MAX_NODES_BETWEEN_POLLS } <= 2, "C07: more than two nodes entered between two consecutive clock polls");
+    vassert!(unsafe { CLK.nodes_after_stop } == 0, "C07: search entered further nodes after the deadline had been observed");
+    vassert!(unsafe { CLK.max_nodes_between_polls } <= 2, "C07: more than two nodes entered between two consecutive clock polls");
     vassert!(crate::search::vh::rep_len(&s) == rep0, "C06: game-history stack not restored after an interrupted search");
-    unsafe { STOP_AT = u32::MAX; }
+    unsafe { CLK.stop_at = u32::MAX; }
     crate::out::reset();
     let (score, mv) = s.find_best_move(&root, depth, None);
     check_result(score, mv, depth);
@@ -83,10 +83,10 @@ include!("gen/h_c06_cases.rs");
 fn c07_polls(b: usize, l: usize, depth: u8) {
     setup_game(b, l);
     let mut s = Searcher::new();
-    unsafe { STOP_AT = u32::MAX - 1; }
+    unsafe { CLK.stop_at = u32::MAX - 1; }
     let _ = s.find_best_move(&Board::root(), depth, Some(Duration::from_millis(1)));
-    let p = unsafe { POLLS };
-    vassert!(unsafe { MAX_NODES_BETWEEN_POLLS } <= 2, "C07: more than two nodes entered between two consecutive clock polls");
+    let p = unsafe { CLK.polls };
+    vassert!(unsafe { CLK.max_nodes_between_polls } <= 2, "C07: more than two nodes entered between two consecutive clock polls");
     vassert!(p <= max_polls(b, l, depth), "C07: more clock polls than the case split over interruption points covers");
     vcover!(p == max_polls(b, l, depth), "maximum number of polls reached");
     core::mem::forget(s);
@@ -108,14 +108,14 @@ search_harness!(c17_quiescence_generator_choice, 4, {
     setup_game(2, 1);
     let mut s = Searcher::new();
     let root = Board::root();
-    unsafe { FIRST_GEN_KIND = 0; }
+    unsafe { CLK.first_gen_kind = 0; }
     let a = sym::i32(); let b = sym::i32();
     sym::assume(a >= crate::search::vh::NEG_INF && b <= crate::search::vh::INF && a < b);
     let _ = crate::search::vh::quiesce(&mut s, &root, a, b);
-    let kind = unsafe { FIRST_GEN_KIND };
+    let kind = unsafe { CLK.first_gen_kind };
     if g().in_check[0] { vassert!(kind == 1, "C17: in check, quiescence did not examine every legal move"); }
     else { vassert!(kind == 2, "C17: not in check, quiescence did not restrict itself to captures, promotions and checks"); }
-    vassert!(unsafe { FIRST_GEN_NODE } == 0, "C17: quiescence generated moves for a different position");
+    vassert!(unsafe { CLK.first_gen_node } == 0, "C17: quiescence generated moves for a different position");
     vcover!(g().in_check[0], "in check");
     vcover!(!g().in_check[0], "not in check");
     core::mem::forget(s);
